@@ -116,7 +116,7 @@ Section Root.
     rewrite <- Ek in *. clear Ek k0 kr.
     generalize (node_hit nm sl IH Hwk Hns Hndk).
     destruct (first_hit (hit nm (rm_sub nm)) 0 sl) as [[[i e] o]|]; [|discriminate].
-    intros [A [ch [B [-> [-> [Ho [Hnf [HA [HB [Hin [Hwch Hsch]]]]]]]]]]].
+    intros [A [ch [B [-> [-> [Ho [Hnf [HA [HB [Hin [Hwch [Hsch Heqo]]]]]]]]]]]].
     assert (Hint : In nm (leaves (UNode n c (A ++ Some (e, ch) :: B)))).
     { rewrite leaves_unfold. kidsplit.
       destruct (kids_of A ++ (e, ch) :: kids_of B) eqn:E0; [destruct (kids_of A); discriminate|].
